@@ -43,7 +43,8 @@ def job(args):
             i1, i2 = idx.split(",")
             r1 = isr.overlap_precursor(order, block, idx)
             r2 = isr.overlap_precursor(order, f"{b2},{b1}", f"{i2},{i1}")
-            e1, e2 = Expr(r1, target_idx=tgt), Expr(r2, target_idx=tgt)
+            # S_JI = conj(S_IJ): symmetric in a real orbital basis (amplitudes real)
+            e1, e2 = Expr(r1, real=True, target_idx=tgt), Expr(r2, real=True, target_idx=tgt)
             (x1, x2), ic = X.export_many([(e1, "auto"), (e2, "auto")])
             return args, "ok", (x1, x2), str(e1)[:300], time.time() - t0
     except X.Unsupported as ex:
@@ -98,6 +99,17 @@ def plan(ctx):
                             if order == 2 and heavy > 6:
                                 continue
                             jobs.append(("precursor", part, fos, variant, order, f"{b1},{b2}", f"{i1},{i2}"))
+    # third order on the lowest class, with first-order singles (the ground-state projector of pp-ADC then has a
+    # (1,1,1) term in which one wavefunction order occurs three times)
+    for variant in (["pp", "ip", "ea"] if quick else ["pp", "ip", "ea", "dip", "dea"]):
+        b = SPACES[variant][0]
+        i1, uo, uv = idx_string(b, [], [])
+        i2, _, _ = idx_string(b, uo, uv)
+        for fos in (True, False):
+            if ("precursor", "mp", fos, variant, 3, f"{b},{b}", f"{i1},{i2}") not in jobs:
+                jobs.append(("precursor", "mp", fos, variant, 3, f"{b},{b}", f"{i1},{i2}"))
+            if ("isr", "mp", fos, variant, 3, f"{b},{b}", f"{i1},{i2}") not in jobs and (fos or not quick):
+                jobs.append(("isr", "mp", fos, variant, 3, f"{b},{b}", f"{i1},{i2}"))
     return jobs
 
 
